@@ -557,18 +557,24 @@ static void run_base(const fc_desc* d, unsigned di, uint64_t seed, const sk_mask
 	uint64_t ps = sk_mix(seed, 2), ss = sk_mix(seed, 3);
 	static octet keep[1 << 16];
 	size_t keepn = 0;
-	err_t rc[2];
+	err_t rc[3];
 	int v, i;
 	char cls[96];
 	(void)mask;
-	for (v = 0; v < 2; ++v)
+	/* runs 0 and 1: different seeded garbage; run 2: the stale image run 1 left
+	   behind, in the heap and on the C stack (a repeated call in a long-lived process) */
+	for (v = 0; v < 3; ++v)
 	{
-		sk_heap_reset(sk_mix(seed, 100 + (uint64_t)v));
+		if (v < 2)
+			sk_heap_reset(sk_mix(seed, 100 + (uint64_t)v));
+		else
+			sk_heap_reset_stale();
 		ctx_init(ps, ss);
 		d->gen(&C);
 		if (v == 0)
 			sk_text(out, "function %s, argument variant %d", d->name, C.variant);
-		scribble_stack(sk_mix(seed, 200 + (uint64_t)v));
+		if (v < 2)
+			scribble_stack(sk_mix(seed, 200 + (uint64_t)v));
 		rc[v] = do_call(d);
 		if (!common_post(d, out, "baseline"))
 			return;
@@ -595,7 +601,8 @@ static void run_base(const fc_desc* d, unsigned di, uint64_t seed, const sk_mask
 					if (memcmp(keep + o, C.outs[i].p, C.outs[i].n))
 					{
 						snprintf(cls, sizeof(cls), "uninitialised_influence:%s", d->name);
-						sk_violate(out, cls, "%s: output %d differs when only the garbage in fresh heap memory differs", d->name, i);
+						sk_violate(out, cls, v == 1 ? "%s: output %d differs when only the garbage in fresh heap memory differs" :
+							"%s: output %d differs when fresh memory holds the stale image of the previous identical call", d->name, i);
 						return;
 					}
 					o += C.outs[i].n;
@@ -624,6 +631,7 @@ static void init(const sk_opts* o)
 	add_table(fc_bign, fc_bign_n);
 	add_table(fc_proto, fc_proto_n);
 	add_table(fc_math, fc_math_n);
+	add_table(fc_math2, fc_math2_n);
 	add_table(fc_other, fc_other_n);
 	add_table(fc_der, fc_der_n);
 	if (!strncmp(v, "alloc", 5)) mode = 0;
